@@ -37,6 +37,7 @@ func runC14(e *Env) {
 	ruleC14Range(e)
 	ruleC14Swap(e)
 	ruleSuffix(e, "C14.suffix")
+	e.S.Floor("C14.suffix", 6)
 	ruleC14Latest(e)
 	ruleC14Next(e)
 	e.S.Floor("C14.core", 28)
@@ -234,17 +235,50 @@ func ruleSuffix(e *Env, rule string) {
 	if cpr == nil {
 		return
 	}
-	// the remainder function: the in-repo callee of comparePreRelease taking two strings
-	var suf *ssa.Function
-	var sufCall *ssa.Call
-	for _, c := range e.C.Calls(cpr, flow.InRepo) {
-		suf = e.C.StaticCallee(&c.Call)
-		sufCall = c
+	// the remainder function(s): every two-argument callee of the module whose result the scan returns at a difference
+	// (a helper called elsewhere — a digit predicate in the loop condition — is not one; each one that is gets the table)
+	type remainder struct {
+		fn   *ssa.Function
+		call *ssa.Call
 	}
-	if suf == nil || len(suf.Params) != 2 {
+	var rems []remainder
+	seenRem := map[*ssa.Function]bool{}
+	for _, c := range e.C.Calls(cpr, flow.InRepo) {
+		g := e.C.StaticCallee(&c.Call)
+		if g == nil || len(g.Params) != 2 || len(c.Call.Args) != 2 {
+			continue
+		}
+		returned := false
+		for _, r := range *c.Referrers() {
+			switch x := r.(type) {
+			case *ssa.Return:
+				returned = true
+			case *ssa.UnOp: // −cmp(…)
+				for _, r2 := range *x.Referrers() {
+					if _, ok := r2.(*ssa.Return); ok {
+						returned = true
+					}
+				}
+			case *ssa.Phi:
+				returned = true
+			}
+		}
+		if returned && !seenRem[g] {
+			seenRem[g] = true
+			rems = append(rems, remainder{g, c})
+		}
+	}
+	if len(rems) == 0 {
 		e.S.Ok(rule, flow.FnName(cpr), "remainder function", "no separate remainder comparison (nothing to tabulate)", e.Pos(cpr))
 		return
 	}
+	for _, rem := range rems {
+		ruleSuffixOf(e, rule, cpr, rem.fn, rem.call)
+	}
+}
+
+// ruleSuffixOf: the decision table of one remainder function.
+func ruleSuffixOf(e *Env, rule string, cpr, suf *ssa.Function, sufCall *ssa.Call) {
 	site := flow.FnName(suf)
 	keyOf := func(a, b pred.Val) (string, bool) {
 		as, bs := a.String(), b.String()
